@@ -104,6 +104,8 @@ class EvolvingAnsatzMinimumEigensolverResultJSONEncoder(JSONEncoder):
                 "evolving_ansatz_population_initial_state_circuit": self.default(o.initial_state_circuit),
             }
 
+        return o
+
     @staticmethod
     def serializable_types() -> set[type]:
         """
@@ -204,6 +206,8 @@ class EvolvingAnsatzMinimumEigensolverResultJSONDecoder(JSONDecoder):
         ):
             return self.parse_evolving_ansatz_result(object_dict)
 
+        return object_dict
+
     @staticmethod
     def parse_complex_number(object_dict):
         return complex(
@@ -253,7 +257,7 @@ class EvolvingAnsatzMinimumEigensolverResultJSONDecoder(JSONDecoder):
         result.eigenstate = object_dict["evolving_ansatz_result_eigenstate"]
         result.best_individual = object_dict["evolving_ansatz_result_best_individual"]
         result.circuit_evaluations = object_dict["evolving_ansatz_result_circuit_evaluations"]
-        result.generation = object_dict["evolving_ansatz_result_generations"]
+        result.generations = object_dict["evolving_ansatz_result_generations"]
         result.population_evaluation_results = object_dict["evolving_ansatz_population_evaluation_results"]
         result.initial_state_circuit = object_dict["evolving_ansatz_population_initial_state_circuit"]
 
